@@ -525,13 +525,13 @@ Qed.
 (* ------------------------------------------------------------------------------------------ *)
 (* DetermineEnabledRules                                                                      *)
 
-Lemma enabled_list_exact_lemma provided user custom p bundled noticed t :
+Lemma enabled_list_exact_gen provided user custom p bundled noticed clist t :
   user_wf user = true ->
   (forall c t', In (c, t') bundled -> rule_level_of provided c t' <> None) ->
   let merged := linter_config provided user custom in
-  In t (determine_enabled_rules p merged bundled noticed custom) <->
+  In t (determine_enabled_rules p merged bundled noticed clist) <->
   (exists c, In (c, t) bundled /\ builtin_can_report p merged c t false (noticed c t) = true) \/
-  (exists c, In (c, t) custom /\ custom_can_report p merged c t false = true).
+  (exists c, In (c, t) clist /\ custom_can_report p merged c t false = true).
 Proof.
   intros Hwf Hsub merged. unfold determine_enabled_rules. rewrite in_app_iff, !in_map_iff. split.
   - intros [[[c t'] [Ht Hin]]|[[c t'] [Ht Hin]]]; simpl in Ht; subst t';
@@ -554,6 +554,15 @@ Proof.
     + right. exists (c, t). split; [reflexivity|]. apply filter_In. split; [assumption|]. simpl.
       unfold custom_can_report in Hc. rewrite andb_true_r in Hc. exact Hc.
 Qed.
+
+Lemma enabled_list_exact_lemma provided user custom p bundled noticed t :
+  user_wf user = true ->
+  (forall c t', In (c, t') bundled -> rule_level_of provided c t' <> None) ->
+  let merged := linter_config provided user custom in
+  In t (determine_enabled_rules p merged bundled noticed custom) <->
+  (exists c, In (c, t) bundled /\ builtin_can_report p merged c t false (noticed c t) = true) \/
+  (exists c, In (c, t) custom /\ custom_can_report p merged c t false = true).
+Proof. apply enabled_list_exact_gen. Qed.
 
 (* ------------------------------------------------------------------------------------------ *)
 (* the behaviour pinned before the repairs (kept as regression witnesses)                     *)
